@@ -91,7 +91,7 @@ def sorted_tokens(x, date_paths=None, path=()) -> list:
     return A.j_tokens(x)
 
 
-def world_tokens(doc, accepted, ids, vecs, extra_vars=(), with_entities=False, with_keys=False) -> list:
+def world_tokens(doc, accepted, ids, vecs, extra_vars=(), with_entities=False, with_keys=False, variant="") -> list:
     out = []
     if not accepted:
         return ["A0"]
@@ -103,8 +103,8 @@ def world_tokens(doc, accepted, ids, vecs, extra_vars=(), with_entities=False, w
                     if isinstance(vars_, dict):
                         names += [str(v) for v in vars_]
     for v in dict.fromkeys([*names, *extra_vars]):
-        if A.vtype(v):
-            out += ["T", A.hx(v), A.vtype(v)]
+        if A.vtype(v, variant):
+            out += ["T", A.hx(v), A.vtype(v, variant)]
     for pl, lst in ids.items():
         for k, iid in enumerate(lst):
             out += ["X", A.hx(pl), A.hx(iid), str(k)]
@@ -188,6 +188,9 @@ def canon_trace(status, body, engine) -> str:
 
 
 def answer(cl, req) -> str:
+    if req["kind"] == "bad":        # a body that is not JSON
+        r = cl.post("/" + req["route"], data=req["body"], content_type="application/json")
+        return "ERR" if r.status_code != 200 else "OK?"
     if req["kind"] == "calc":
         return canon_calc(*A.post(cl, "/calculate", copy.deepcopy(req["doc"])), doc=req["doc"])
     return canon_trace(*A.post(cl, "/trace", copy.deepcopy(req["doc"])), req["engine"])
@@ -248,7 +251,7 @@ def yaml_node(x, ind: int) -> str:
     return " " + yaml_scalar(x) + "\n"
 
 
-def yaml_of_tests(tests) -> str:
+def yaml_of_tests(tests, single=False) -> str:
     s = ""
     for k, t in enumerate(tests):
         s += f"- name: t{k}\n"
@@ -257,15 +260,20 @@ def yaml_of_tests(tests) -> str:
         for key in ("absolute_error_margin", "relative_error_margin"):
             if key in t:
                 s += f"  {key}:" + yaml_node(t[key], 2)
-        s += "  input:" + yaml_node(t["input"], 2)
+        for key, v in (t.get("extra") or {}).items():
+            if key != "yaml_input":
+                s += f"  {key}:" + yaml_node(v, 2)
+        s += "  input:" + yaml_node((t.get("extra") or {}).get("yaml_input", t["input"]), 2)
         if "output" in t:
             s += "  output:" + yaml_node(t["output"], 2)
+    if single and len(tests) == 1:         # a file holding one test as a mapping, not a list
+        s = "".join(l[2:] + "\n" for l in s.splitlines())
     return s
 
 
-def impl_yaml(tests) -> str:
-    tests = [materialise(t) for t in tests]
-    status, outs = A.run_yaml_tests(A.system(), yaml_of_tests(tests), "t")
+def impl_yaml(pl) -> str:
+    tests = [materialise(t) for t in pl["tests"]]
+    status, outs = A.run_yaml_tests(A.system(), yaml_of_tests(tests, pl.get("single", False)), "t", pl.get("options") or None)
     if len(outs) != len(tests):
         raise RuntimeError(f"{len(outs)} outcomes for {len(tests)} tests (status {status}): {outs[:2]}")
     verdicts = ["PASS" if o["outcome"] == "passed" else "FAIL" for o in outs]
@@ -357,7 +365,7 @@ def impl(case: Case) -> str:
     if k == "seq":
         return impl_seq(pl["reqs"])
     if k == "yaml":
-        return impl_yaml(pl["tests"])
+        return impl_yaml(pl)
     if k == "phist":
         return impl_phist(pl)
     if k == "vforms":
@@ -384,8 +392,12 @@ def _same_number(a, b) -> bool:
     return a == b
 
 
+def var_info(var: str):
+    return A.VARS.get(var) or A.EXT_VARS.get(var)
+
+
 def _slot_type(var: str) -> str:
-    return "strn" if var in A.BOUNDED else (A.vtype(var) or "unknown")
+    return "strn" if var in A.BOUNDED else (A.vtype(var, "ext") or "unknown")
 
 
 def oracle_calc(req, out: str):
@@ -503,16 +515,22 @@ def expected_verdict(test):
         return None
     vecs = {(v, p): r for v, p, r in eng["vecs"]}
     verdict = True
+    opts = test.get("options") or {}
     for x in test["expectations"]:
         var, per, inst, expd = x["var"], x["period"], x["inst"], x["expected"]
+        if (opts.get("ignore_variables") is not None and var in opts["ignore_variables"]) or \
+                (opts.get("only_variables") is not None and var not in opts["only_variables"]):
+            if inst is not None and inst[1] not in eng["ids"].get(inst[0], []):
+                return None
+            continue                    # the runner is told to leave this variable out
         r = vecs.get((var, per))
         if r is None or r[0] != "ok":
             return None
-        vt = A.vtype(var)
+        vt = A.vtype(var, "ext")
         vals = [tok_value(t) for t in r[1]]
         if inst is not None:
             pl, iid = inst
-            if iid not in eng["ids"].get(pl, []) or pl != A.PLURAL[A.VARS[var][0]]:
+            if iid not in eng["ids"].get(pl, []) or pl != A.PLURAL[var_info(var)[0]]:
                 return None
             vals = [vals[eng["ids"][pl].index(iid)]]
         exps = expd if isinstance(expd, list) else [expd] * len(vals)
@@ -553,19 +571,20 @@ def blame(t):
         return classes[0]
     for x in t["expectations"]:
         node = x["expected"] if x["period"] is None else {x["period"]: x["expected"]}
-        ent = A.VARS[x["var"]][0]
+        ent = var_info(x["var"])[0]
         if x["layout"] == "variable":
             output = {x["var"]: node}
         elif x["layout"] == "entity":
             output = {ent: {x["var"]: node}}
         else:
             output = {x["inst"][0]: {x["inst"][1]: {x["var"]: node}}}
-        sub = {k: t[k] for k in ("name", "input", "period", "engine", "absolute_error_margin", "relative_error_margin") if k in t}
+        sub = {k: t[k] for k in ("name", "input", "period", "engine", "absolute_error_margin", "relative_error_margin",
+                                 "extra", "options") if k in t}
         sub.update(output=output, layout=x["layout"], expectations=[x])
         want = expected_verdict(sub)
         if want is None:
             continue
-        _, outs = A.run_yaml_tests(A.system(), yaml_of_tests([sub]), "blame")
+        _, outs = A.run_yaml_tests(A.system(), yaml_of_tests([sub]), "blame", t.get("options") or None)
         if len(outs) == 1 and (outs[0]["outcome"] == "passed") != want:
             return (_slot_type(x["var"]), x["layout"])
     return ("mixed", "mixed")
@@ -609,6 +628,10 @@ def oracle(case: Case, out: str):
         if out.startswith("HISTORY"):
             return ("history-dependent", out[:600])
         for r, o in zip(pl["reqs"], out.split(" ;; ")):
+            if r["kind"] == "bad":
+                if o != "ERR":
+                    return ("calc:value-without-engine-value", "a body that is not JSON was answered")
+                continue
             v = oracle_calc(r, o) if r["kind"] == "calc" else oracle_trace(r, o)
             if v is not None:
                 return v
@@ -710,9 +733,12 @@ def gen_population(rng: random.Random, with_households=None):
     nh = 1 if np_ == 1 or rng.random() < 0.5 else 2
     hids = rng.choice(HOUSE_IDS)[:nh]
     households = {h: {} for h in hids}
+    left_out = pids[-1] if np_ > nh and rng.random() < 0.15 else None     # one person in no household: a group of their own
     for k, p in enumerate(pids):
+        if p == left_out:
+            continue
         h = hids[k % nh] if k < nh else rng.choice(hids)      # no empty household
-        role = "adults" if k < nh or rng.random() < 0.5 else "children"
+        role = "adults" if len(households[h].get("adults", [])) < 2 and (k < nh or rng.random() < 0.5) else "children"
         households[h].setdefault(role, []).append(p)
     return persons, households
 
@@ -751,7 +777,7 @@ def spoil_doc(rng: random.Random, doc):
     pid = next(iter(doc["persons"]))
     kind = rng.choice(["mismatch", "unknown-var", "unknown-entity", "bad-role", "null-role", "bad-value", "day-month",
                        "null-var", "deep", "empty", "list", "no-persons", "unknown-var-input", "bad-period", "shallow-null",
-                       "enum-bad", "date-bad"])
+                       "enum-bad", "date-bad", "non-ascii-bounded", "input-period-mismatch"])
     if kind == "mismatch":
         doc["persons"][pid]["p_f_int"] = {"2018": None}
     elif kind == "unknown-var":
@@ -772,6 +798,10 @@ def spoil_doc(rng: random.Random, doc):
         doc["persons"][pid]["p_enum"] = {"2018-01": "palace"}
     elif kind == "date-bad":
         doc["persons"][pid]["p_date"] = {"ETERNITY": "2018-02-30"}
+    elif kind == "non-ascii-bounded":
+        doc["persons"][pid]["p_strn"] = {"2018-01": "é"}
+    elif kind == "input-period-mismatch":
+        doc["persons"][pid]["p_bool"] = {"2018": True}
     elif kind == "day-month":
         doc["persons"][pid]["p_d_int"] = {"2018-01": None}
     elif kind == "null-var":
@@ -799,6 +829,10 @@ def mk_request_case(op: str, doc, tags=(), claimed=True) -> Case:
 def mk_seq_case(reqs, tags=()) -> Case:
     blocks, payload = [], []
     for kind, doc in reqs:
+        if kind == "bad":
+            blocks.append("B")
+            payload.append({"kind": "bad", "route": doc[0], "body": doc[1]})
+            continue
         toks, req = request_block(kind, doc)
         blocks.append(" ".join(["C" if kind == "calc" else "T", *toks]))
         payload.append(req)
@@ -826,7 +860,10 @@ def gen_seq(rng: random.Random) -> Case:
         docs.append(spoil_doc(rng, base)[0])
     reqs = []
     for _ in range(rng.choice([3, 4, 5, 6])):
-        reqs.append((rng.choice(["calc", "calc", "trace"]), rng.choice(docs)))
+        if rng.random() < 0.08:
+            reqs.append(("bad", (rng.choice(["calculate", "trace"]), rng.choice(["{not json", "", "[1,", "{\"persons\": {\"a\": }}"]))))
+        else:
+            reqs.append((rng.choice(["calc", "calc", "trace"]), rng.choice(docs)))
     return mk_seq_case(reqs)
 
 
@@ -836,8 +873,11 @@ def gen_seq(rng: random.Random) -> Case:
 TEST_PERIOD = "2018-01"
 
 
-def gen_test_input(rng: random.Random):
-    persons, households = gen_population(rng, with_households=True)
+def gen_test_input(rng: random.Random, single=False):
+    if single:      # one person in one household, under the ids of the short input layouts
+        persons, households = {"person": {}}, {"household": {"adults": ["person"]}}
+    else:
+        persons, households = gen_population(rng, with_households=True)
     fill_entity(rng, persons, "person", rng.choice([3, 5, 8]), 0.0, lattice=True, months_only=True)
     fill_entity(rng, households, "household", rng.choice([2, 4, 6]), 0.0, lattice=True, months_only=True)
     for table in (persons, households):
@@ -931,7 +971,7 @@ def margin_config(rng: random.Random, var: str, kind=None):
 
 def place(output: dict, layout: str, var: str, per, exps, ids):
     """write the expected values of one variable in the chosen layout"""
-    ent = A.VARS[var][0]
+    ent = var_info(var)[0]
 
     def node(v):
         return v if per is None else {per: v}
@@ -945,7 +985,7 @@ def place(output: dict, layout: str, var: str, per, exps, ids):
             output.setdefault(pl, {}).setdefault(iid, {})[var] = node(e)
 
 
-def expectations_of(output, period, margins, engine_ids):
+def expectations_of(output, period, margins, engine_ids, variant=""):
     """the harness's own reading of an output section: (var, period, inst, expected) records"""
     am, rm = margins.get("absolute_error_margin"), margins.get("relative_error_margin")
 
@@ -963,7 +1003,7 @@ def expectations_of(output, period, margins, engine_ids):
             out.append({"var": var, "period": per, "inst": inst, "expected_tok": A.j_tokens(v, f32=False),
                         "abs": margin(am, var), "rel": margin(rm, var), "layout": lay})
     for key, v in output.items():
-        if A.vtype(key):
+        if A.vtype(key, variant):
             leafs(key, period, None, v, "variable")
         elif key in A.PLURAL and isinstance(v, dict):
             for var, w in v.items():
@@ -976,17 +1016,46 @@ def expectations_of(output, period, margins, engine_ids):
     return out
 
 
-def finish_test(name, inp, period, margins, output, layout, group=None):
+def short_input(inp, form: str, period):
+    """the situation `inp` (explicit entities, explicit periods) in another of the input layouts
+    `build_from_dict` accepts: 'variables' (one person, variables only), 'singular' (entities by
+    their singular key), 'entities'; values for the test's period written without it"""
+    def values(table):
+        out = {}
+        for var, pers in table.items():
+            if isinstance(pers, dict) and list(pers) == [period]:
+                out[var] = pers[period]          # the default period
+            else:
+                out[var] = pers
+        return out
+    if form == "variables":
+        merged = {}
+        for table in inp.values():
+            for inst in table.values():
+                merged.update({v: x for v, x in values(inst).items() if v not in ("adults", "children")})
+        return merged
+    if form == "singular":
+        return {sg: values(next(iter(inp[pl].values()))) for sg, pl in A.PLURAL.items()}
+    return {pl: {iid: values(inst) for iid, inst in table.items()} for pl, table in inp.items()}
+
+
+def finish_test(name, inp, period, margins, output, layout, group=None, extra=None, options=None, form=None):
     """run the independent engine on the test's situation and tabulate it"""
-    exps = expectations_of(output or {}, period, margins, None)
+    extra = dict(extra or {})
+    variant = "+".join(k for k, key in (("reform", "reforms"), ("ext", "extensions")) if extra.get(key))
+    exps = expectations_of(output or {}, period, margins, None, variant)
     pairs = [(x["var"], x["period"]) for x in exps if x["period"] is not None]
-    accepted, ids, vecs = A.engine_run(inp, pairs)
+    accepted, ids, vecs = A.engine_run(inp, pairs, variant, extra.get("max_spiral_loops"))
+    if extra.get("reforms") not in (None, A.REFORM, [A.REFORM]):
+        accepted, ids, vecs = False, {}, {}          # no such reform: the test designates no engine
+    if form:
+        extra["yaml_input"] = short_input(inp, form, period)
     t = {"name": name, "input": inp, "period": period, "layout": layout, "group": group, **margins,
          "engine": {"accepted": accepted, "ids": ids, "vecs": [[v, p, list(r)] for (v, p), r in vecs.items()]},
-         "expectations_tok": exps}
+         "expectations_tok": exps, "extra": extra, "options": options or {}}
     if output is not None:
         t["output_tok"] = A.j_tokens(output, f32=False)
-    world = world_tokens(inp, accepted, ids, vecs, extra_vars=[x["var"] for x in exps], with_keys=True)
+    world = world_tokens(inp, accepted, ids, vecs, extra_vars=[x["var"] for x in exps], with_keys=True, variant=variant)
 
     def mtoks(m):
         if m is None:
@@ -999,6 +1068,9 @@ def finish_test(name, inp, period, margins, output, layout, group=None):
         return ["d" + A.rat(Fraction(m))]
     toks = world + ["Y", "p~" if period is None else "p" + A.hx(period), "a", *mtoks(margins.get("absolute_error_margin")),
                     "r", *mtoks(margins.get("relative_error_margin"))]
+    for tok, key in (("N", "only_variables"), ("G", "ignore_variables")):
+        if (options or {}).get(key) is not None:
+            toks += [tok, *[A.hx(v) for v in options[key]], ";"]
     toks += ["o~"] if output is None else ["o", *A.j_tokens(output, f32=False)]
     return t, toks
 
@@ -1017,16 +1089,20 @@ def materialise(t):
     return t
 
 
-def gen_atoms(rng: random.Random, inp, nvars: int, type_pick=None):
+def gen_atoms(rng: random.Random, inp, nvars: int, type_pick=None, variant="", msl=None):
     """variables to assert on, with the engine's actual vectors"""
     ids = {"persons": list(inp["persons"]), "households": list(inp["households"])}
-    names = list(A.VARS)
+    names = list(A.VARS) + (list(A.EXT_VARS) if "ext" in variant else [])
+    if "reform" in variant and not type_pick:
+        names += ["p_f_int"] * 6
+    if msl and not type_pick:
+        names += ["p_spiral"] * 8
     if type_pick:
         names = [v for v in names if _slot_type(v) == type_pick]
     chosen = rng.sample(names, min(nvars, len(names)))
     pairs = []
-    for var in chosen:
-        dp = A.VARS[var][2]
+    for var in dict.fromkeys(chosen):
+        dp = (A.VARS.get(var) or A.EXT_VARS[var])[2]
         if dp == "month":
             per = rng.choice([None, None, "2018-01", "2017-12", "month:2018-02"])
         elif dp == "year":
@@ -1036,7 +1112,8 @@ def gen_atoms(rng: random.Random, inp, nvars: int, type_pick=None):
         else:
             per = rng.choice([None, "ETERNITY"])
         pairs.append((var, per))
-    _, _, vecs = A.engine_run(inp, [(v, p or TEST_PERIOD) for v, p in pairs])
+    _, eids, vecs = A.engine_run(inp, [(v, p or TEST_PERIOD) for v, p in pairs], variant, msl)
+    ids = eids or ids
     atoms = []
     for var, per in pairs:
         r = vecs.get((var, per or TEST_PERIOD))
@@ -1045,10 +1122,32 @@ def gen_atoms(rng: random.Random, inp, nvars: int, type_pick=None):
     return atoms, ids
 
 
-def gen_yaml_group(rng: random.Random, name: str, type_pick=None, relation=None, mkind=None, three=False):
+def gen_extras(rng: random.Random):
+    """keys of a test beside input/output: reforms / extensions (a string or a list), max_spiral_loops,
+    keywords, description; and the input layout"""
+    extra = {}
+    if rng.random() < 0.15:
+        extra["reforms"] = rng.choice([A.REFORM, [A.REFORM]])
+    if rng.random() < 0.12:
+        extra["extensions"] = rng.choice([A.EXTENSION, [A.EXTENSION]])
+    if rng.random() < 0.15:
+        extra["max_spiral_loops"] = rng.choice([1, 2, 3, 5])
+    if rng.random() < 0.2:
+        extra["keywords"] = rng.sample(["alpha", "beta", "gamma"], rng.choice([1, 2]))
+    if rng.random() < 0.2:
+        extra["description"] = "a generated test"
+    form = rng.choice(["variables", "singular", "entities", "entities", None, None, None])
+    return extra, form
+
+
+def gen_yaml_group(rng: random.Random, name: str, type_pick=None, relation=None, mkind=None, three=False, options=None,
+                   plain=False):
     """-> list of (test payload, tokens): one test, or the same expectations in the three layouts"""
-    inp = gen_test_input(rng)
-    atoms, ids = gen_atoms(rng, inp, 1 if three or type_pick else rng.choice([1, 2, 3]), type_pick)
+    extra, form = ({}, None) if plain else gen_extras(rng)
+    variant = "+".join(k for k, key in (("reform", "reforms"), ("ext", "extensions")) if extra.get(key))
+    inp = gen_test_input(rng, single=form in ("variables", "singular"))
+    atoms, ids = gen_atoms(rng, inp, 1 if three or type_pick else rng.choice([1, 2, 3]), type_pick, variant,
+                           extra.get("max_spiral_loops"))
     if not atoms:
         return []
     margins, am, rm = margin_config(rng, atoms[0][0], mkind)
@@ -1063,7 +1162,7 @@ def gen_yaml_group(rng: random.Random, name: str, type_pick=None, relation=None,
             r = rel if (k == which or rng.random() < 0.3) else "equal"
             exps.append(expected_for(rng, var, tk, r, am if am != "missing" else None, rm if rm != "missing" else None))
         built.append((var, per, exps))
-    layouts = ["variable", "entity", "instance"]
+    layouts = ["variable", "entity"] if form == "variables" else ["variable", "entity", "instance"]
     out = []
     if three:
         g = name
@@ -1071,7 +1170,8 @@ def gen_yaml_group(rng: random.Random, name: str, type_pick=None, relation=None,
             output: dict = {}
             for var, per, exps in built:
                 place(output, lay, var, per, exps, ids)
-            out.append(finish_test(f"{name}-{lay}", inp, TEST_PERIOD, margins, output, lay, group=g))
+            out.append(finish_test(f"{name}-{lay}", inp, TEST_PERIOD, margins, output, lay, group=g, extra=extra,
+                                   options=options, form=form))
         return out
     output = {}
     lay0 = None
@@ -1081,11 +1181,26 @@ def gen_yaml_group(rng: random.Random, name: str, type_pick=None, relation=None,
         if lay != "instance" and len(set(map(repr, exps))) == 1 and rng.random() < 0.3:
             exps = exps[0]                      # a scalar, broadcast over the population
         place(output, lay, var, per, exps, ids)
-    out.append(finish_test(name, inp, TEST_PERIOD, margins, output, lay0))
+    out.append(finish_test(name, inp, TEST_PERIOD, margins, output, lay0, extra=extra, options=options, form=form))
     return out
 
 
-def gen_yaml_odd(rng: random.Random, name: str):
+def gen_options(rng: random.Random):
+    """options of run_tests for one file (verbose needs max_depth: see the note in PROP.assumptions)"""
+    r = rng.random()
+    names = list(A.VARS)
+    if r < 0.55:
+        return {}
+    if r < 0.7:
+        return {"ignore_variables": rng.sample(names, rng.choice([0, 6, 15]))}
+    if r < 0.85:
+        return {"only_variables": rng.sample(names, rng.choice([0, 20, 35]))}
+    if r < 0.92:
+        return {"verbose": True, "max_depth": rng.choice([1, 3]), "aggregate": rng.random() < 0.5}
+    return {"ignore_variables": rng.sample(names, 8), "only_variables": rng.sample(names, 30)}
+
+
+def gen_yaml_odd(rng: random.Random, name: str, options=None):
     """expectations the statement does not decide (correspondence only): ill-typed values, shapes
     that do not broadcast, unknown keys and instances, missing output / period / default margin"""
     inp = gen_test_input(rng)
@@ -1094,7 +1209,9 @@ def gen_yaml_odd(rng: random.Random, name: str):
     kind = rng.choice(["unknown-key", "unknown-instance", "no-output", "no-period", "short-list", "long-list", "empty-list",
                        "scalar", "list-for-instance", "text-for-number", "number-for-text", "number-for-enum", "bool-for-enum",
                        "date-for-number", "text-for-date", "entity-not-mapping", "instance-not-mapping", "other-entity-singular",
-                       "other-entity-instance", "bad-input", "nested-periods", "mismatch-period", "number-for-date", "text-list-number"])
+                       "other-entity-instance", "bad-input", "nested-periods", "mismatch-period", "number-for-date", "text-list-number",
+                       "non-ascii-input", "bad-reform", "ignored-unknown-instance", "empty-output"])
+    extra = {}
     period, margins, output = TEST_PERIOD, {}, {}
     pid = ids["persons"][0]
     if kind == "unknown-key":
@@ -1143,18 +1260,32 @@ def gen_yaml_odd(rng: random.Random, name: str):
         inp = copy.deepcopy(inp)
         inp["persons"][pid]["nope"] = {"2018-01": 1}
         output = {"p_f_int": [1] * n}
+    elif kind == "non-ascii-input":        # an error that is neither VariableNotFound nor a situation error
+        inp = copy.deepcopy(inp)
+        inp["persons"][pid]["p_strn"] = {"2018-01": "é"}
+        output = {"p_f_int": [1] * n}
+    elif kind == "bad-reform":
+        extra = {"reforms": rng.choice(["ofverif.nosuch.Reform", "ofverif.apiutil.system", "noreform"])}
+        output = {"p_int": [0] * n}
+    elif kind == "ignored-unknown-instance":
+        options = dict(options or {}, ignore_variables=["p_f_int"])
+        output = {"persons": {"zz": {"p_f_int": 1}}}
+    elif kind == "empty-output":
+        output = {}
     elif kind == "nested-periods":
         output = {"p_f_int": {"2018-01": {"2018-02": [1] * n}}}
     elif kind == "mismatch-period":
         output = {"p_f_int": {"2018": [1] * n}}
     claimed = kind not in ("number-for-date", "text-list-number")
-    t, toks = finish_test(name, inp, period, margins, output, "odd:" + kind)
-    return t, toks, claimed
+    t, toks = finish_test(name, inp, period, margins, output, "odd:" + kind, extra=extra, options=options)
+    return t, toks, claimed, options
 
 
-def mk_yaml_case(tests_toks, tags=(), claimed=True) -> Case:
+def mk_yaml_case(tests_toks, tags=(), claimed=True, options=None, single=False) -> Case:
     line = "api yaml " + " ;; ".join(" ".join(toks) for _, toks in tests_toks)
-    return Case(line=line, payload={"op": "yaml", "tests": [t for t, _ in tests_toks]}, claimed=claimed, tags=("yaml",) + tuple(tags))
+    payload = {"op": "yaml", "tests": [t for t, _ in tests_toks], "options": options or {}, "single": single}
+    tags = ("yaml",) + tuple(tags) + tuple("opt:" + k for k in (options or {})) + (("single-mapping",) if single else ())
+    return Case(line=line, payload=payload, claimed=claimed, tags=tags)
 
 
 def yaml_grid(rng: random.Random):
@@ -1165,7 +1296,8 @@ def yaml_grid(rng: random.Random):
         for chunk_start in range(0, len(combos), 2):
             tests = []
             for rel, mk in combos[chunk_start:chunk_start + 2]:
-                tests += gen_yaml_group(rng, f"grid-{typ}-{rel}-{mk}", type_pick=typ, relation=rel, mkind=mk, three=True)
+                tests += gen_yaml_group(rng, f"grid-{typ}-{rel}-{mk}", type_pick=typ, relation=rel, mkind=mk, three=True,
+                                        plain=True)
             if tests:
                 cases.append(mk_yaml_case(tests, tags=("grid", "type:" + typ)))
     return cases
@@ -1271,17 +1403,19 @@ def generate(rng: random.Random, tier: str):
     out += yaml_grid(rng)
     for k in range(n_yaml_files):
         tests = []
-        for j in range(rng.choice([3, 4, 5, 6])):
-            tests += gen_yaml_group(rng, f"f{k}t{j}", three=rng.random() < 0.25)
+        options = gen_options(rng)
+        single = rng.random() < 0.08
+        for j in range(1 if single else rng.choice([3, 4, 5, 6])):
+            tests += gen_yaml_group(rng, f"f{k}t{j}", three=(not single) and rng.random() < 0.25, options=options)
         if tests:
-            out.append(mk_yaml_case(tests))
+            out.append(mk_yaml_case(tests, options=options, single=single and len(tests) == 1))
     for k in range(n_odd):
-        group, claimed = [], True
-        for j in range(3):
-            t, toks, c = gen_yaml_odd(rng, f"odd{k}t{j}")
-            group.append((t, toks))
-            claimed = claimed and c
-        out.append(mk_yaml_case(group, tags=("odd",), claimed=claimed))
+        t, toks, claimed, options = gen_yaml_odd(rng, f"odd{k}", gen_options(rng) if rng.random() < 0.3 else None)
+        group = [(t, toks)]
+        for j in range(2):       # two ordinary tests under the same options around it
+            group += gen_yaml_group(rng, f"odd{k}t{j}", options=options)
+        rng.shuffle(group)
+        out.append(mk_yaml_case(group, tags=("odd",), claimed=claimed, options=options))
     out += listing_cases(None)
     for s in range(n_sys):
         out += listing_cases(rng.randrange(10 ** 6))
@@ -1339,11 +1473,14 @@ def neighbours(case: Case):
     if pl["op"] == "yaml" and len(pl["tests"]) > 1:
         blocks = case.line[len("api yaml "):].split(" ;; ")
         for k in range(len(blocks)):
-            out.append(Case(line="api yaml " + blocks[k], payload={"op": "yaml", "tests": [pl["tests"][k]]}, tags=("neighbour",)))
+            out.append(Case(line="api yaml " + blocks[k], payload={"op": "yaml", "tests": [pl["tests"][k]],
+                                                                  "options": pl.get("options") or {}}, tags=("neighbour",)))
     elif pl["op"] == "seq":
         blocks = case.line[len("api seq "):].split(" ;; ")
         for k, r in enumerate(pl["reqs"]):
             op = r["kind"]
+            if op == "bad":
+                continue
             out.append(Case(line=f"api {op} " + blocks[k][2:], payload={"op": op, "req": r}, tags=("neighbour",)))
     elif pl["op"] in ("calc", "trace") and isinstance(pl["req"]["doc"], dict):
         doc = pl["req"]["doc"]
